@@ -67,16 +67,20 @@ func ruleS17_1(c *Ctx, id string) {
 			}
 		}
 		R.Check(fromArg, id, name+"|locks the inode the handle names", P.Pos(acq[0].Pos()), "the locked number is fh2ino(<handle argument>)", "value identity", "the lock taken is not the lock of the file operated on")
-		g := guardedBy(h, acq[0].Block(), func(cd Cond) (bool, bool) {
-			if cd.Op != token.ILLEGAL {
+		// directly, or through a helper that turns validInum's answer into a status that is tested here
+		g := guardedByS(h, acq[0].Block(), v, func(subj ssa.Value) func(Cond) (bool, bool) {
+			want := stripConv(subj)
+			return func(cd Cond) (bool, bool) {
+				if cd.Op != token.ILLEGAL {
+					return false, false
+				}
+				vc, ok := cd.X.(*ssa.Call)
+				if ok && vc.Call.StaticCallee() == valid && stripConv(vc.Call.Args[0]) == want {
+					return true, true
+				}
 				return false, false
 			}
-			vc, ok := cd.X.(*ssa.Call)
-			if ok && vc.Call.StaticCallee() == valid && stripConv(vc.Call.Args[0]) == v {
-				return true, true
-			}
-			return false, false
-		})
+		}, 0)
 		R.Check(g, id, name+"|validInum before locking", P.Pos(acq[0].Pos()), "Acquire is dominated by validInum(inum) == true", "guard dominates", "an out-of-range or reserved inode number reaches the inode table / another file's data block")
 		// journal operations only inside the critical section, on the same inum
 		before := MustBefore(h, func(in ssa.Instruction) bool { return in == acq[0] })
@@ -200,6 +204,19 @@ func ruleS17_1(c *Ctx, id string) {
 						if k, isk := constInt(x.Val); isk && k == 0 {
 							nOK++
 							R.Check(underTrue(b), id, FuncName(fn)+"|OK only when the commit succeeded", P.Pos(in.Pos()), "NFS3_OK is stored only under CommitWait(true) == true", "dominated by the true edge", "success reported although the commit failed or did not happen")
+						} else if phi, isPhi := stripConv(x.Val).(*ssa.Phi); isPhi {
+							// "default then overwrite": the OK input of the merged status comes from the commit's true side
+							for i, e := range phi.Edges {
+								if k, isk := constInt(e); isk && k == 0 {
+									nOK++
+									pred := phi.Block().Preds[i]
+									okEdge := underTrue(pred) || tEdge(pred, phi.Block())
+									R.Check(okEdge, id, FuncName(fn)+"|OK only when the commit succeeded", P.Pos(in.Pos()), "the NFS3_OK input of the stored status comes from under CommitWait(true) == true", "merged on the true side", "success reported although the commit failed or did not happen")
+								} else if !isk {
+									nOK++
+									R.Fail(id, FuncName(fn)+"|OK only when the commit succeeded", P.Pos(in.Pos()), "the status stored after the commit is built from constants", "an input of the merged status is not a constant")
+								}
+							}
 						}
 					case *ssa.Return:
 						for _, res := range x.Results {
@@ -267,21 +284,30 @@ func ruleS17_2(c *Ctx, id string) {
 	}
 	R.Analysed[FuncName(w)] = true
 	R.Analysed[FuncName(rd)] = true
-	// the copy loop: store into buffer.Data[...]
+	// the copy loop: store into / load from buffer.Data[...], in the function or in a private helper that is handed
+	// the buffer's data; reported as the instruction of fn through which it runs
 	findCopy := func(fn *ssa.Function, store bool) ssa.Instruction {
-		for _, b := range fn.Blocks {
-			for _, in := range b.Instrs {
-				var addr ssa.Value
-				if store {
-					if st, ok := in.(*ssa.Store); ok {
-						addr = st.Addr
+		for _, sc := range scopesOf(fn) {
+			for _, b := range sc.Fn.Blocks {
+				for _, in := range b.Instrs {
+					var addr ssa.Value
+					if store {
+						if st, ok := in.(*ssa.Store); ok {
+							addr = st.Addr
+						}
+					} else if u, ok := in.(*ssa.UnOp); ok && u.Op == token.MUL {
+						addr = u.X
 					}
-				} else if u, ok := in.(*ssa.UnOp); ok && u.Op == token.MUL {
-					addr = u.X
-				}
-				if ia, ok := addr.(*ssa.IndexAddr); ok {
-					if n, fl, _, _ := loadedField(ia.X); n != nil && n.Obj().Name() == "Buf" && fl == "Data" {
-						return in
+					if ia, ok := addr.(*ssa.IndexAddr); ok {
+						if n, fl, _, _ := loadedFieldS(ia.X, sc.S); n != nil && n.Obj().Name() == "Buf" && fl == "Data" {
+							if sc.Via != nil {
+								if sc.Via.Parent() != fn {
+									continue
+								}
+								return sc.Via
+							}
+							return in
+						}
 					}
 				}
 			}
@@ -293,82 +319,94 @@ func ruleS17_2(c *Ctx, id string) {
 		R.Fail(id, "simple.Write|copy loop", P.Pos(w.Pos()), "Write copies into the journal buffer", "no store into buf.Data found")
 	} else {
 		offset, count, data := ssa.Value(w.Params[2]), ssa.Value(w.Params[3]), ssa.Value(w.Params[4])
-		is := func(v, want ssa.Value) bool { return stripConv(v) == want }
-		isLenData := func(v ssa.Value) bool {
-			cl, ok := stripConv(v).(*ssa.Call)
-			if !ok {
-				return false
-			}
-			bi, ok := cl.Call.Value.(*ssa.Builtin)
-			return ok && bi.Name() == "len" && stripConv(cl.Call.Args[0]) == data
-		}
-		isSum := func(v ssa.Value) bool {
-			bo, ok := stripConv(v).(*ssa.BinOp)
-			return ok && bo.Op == token.ADD && ((is(bo.X, offset) && is(bo.Y, count)) || (is(bo.X, count) && is(bo.Y, offset)))
-		}
 		checks := []struct {
 			name string
-			m    func(Cond) (bool, bool)
+			m    CondMatcherX
 		}{
-			{"count == len(data)", func(cd Cond) (bool, bool) {
-				if cd.X == nil || cd.Y == nil {
+			{"count == len(data)", func(sub Subst) func(Cond) (bool, bool) {
+				is := func(v, want ssa.Value) bool { return sub.resolve(v) == want }
+				isLenData := func(v ssa.Value) bool {
+					cl, ok := sub.resolve(v).(*ssa.Call)
+					if !ok {
+						return false
+					}
+					bi, ok := cl.Call.Value.(*ssa.Builtin)
+					return ok && bi.Name() == "len" && stripConv(cl.Call.Args[0]) == data
+				}
+				return func(cd Cond) (bool, bool) {
+					if cd.X == nil || cd.Y == nil {
+						return false, false
+					}
+					if (is(cd.X, count) && isLenData(cd.Y)) || (is(cd.Y, count) && isLenData(cd.X)) {
+						if cd.Op == token.NEQ {
+							return true, false
+						}
+						if cd.Op == token.EQL {
+							return true, true
+						}
+					}
 					return false, false
 				}
-				if (is(cd.X, count) && isLenData(cd.Y)) || (is(cd.Y, count) && isLenData(cd.X)) {
-					if cd.Op == token.NEQ {
+			}},
+			{"!SumOverflows(offset, count)", func(sub Subst) func(Cond) (bool, bool) {
+				return func(cd Cond) (bool, bool) {
+					if cd.Op != token.ILLEGAL {
+						return false, false
+					}
+					cl, ok := cd.X.(*ssa.Call)
+					if ok && cl.Call.StaticCallee() == sumOv && sub.resolve(cl.Call.Args[0]) == offset && sub.resolve(cl.Call.Args[1]) == count {
 						return true, false
 					}
-					if cd.Op == token.EQL {
+					return false, false
+				}
+			}},
+			{"offset+count <= BlockSize", func(sub Subst) func(Cond) (bool, bool) {
+				isSum := func(v ssa.Value) bool {
+					bo, ok := sub.resolve(v).(*ssa.BinOp)
+					if !ok || bo.Op != token.ADD {
+						return false
+					}
+					x, y := sub.resolve(bo.X), sub.resolve(bo.Y)
+					return (x == offset && y == count) || (x == count && y == offset)
+				}
+				return func(cd Cond) (bool, bool) {
+					if cd.X == nil || cd.Y == nil || !isSum(cd.X) {
+						return false, false
+					}
+					k, isk := constInt(cd.Y)
+					if !isk || k != 4096 {
+						return false, false
+					}
+					if cd.Op == token.GTR {
+						return true, false
+					}
+					if cd.Op == token.LEQ {
 						return true, true
 					}
+					return false, false
 				}
-				return false, false
 			}},
-			{"!SumOverflows(offset, count)", func(cd Cond) (bool, bool) {
-				if cd.Op != token.ILLEGAL {
+			{"offset <= Size", func(sub Subst) func(Cond) (bool, bool) {
+				return func(cd Cond) (bool, bool) {
+					if cd.X == nil || cd.Y == nil || sub.resolve(cd.X) != offset {
+						return false, false
+					}
+					_, fl, _, _ := loadedFieldS(cd.Y, sub)
+					if fl != "Size" {
+						return false, false
+					}
+					if cd.Op == token.GTR {
+						return true, false
+					}
+					if cd.Op == token.LEQ {
+						return true, true
+					}
 					return false, false
 				}
-				cl, ok := cd.X.(*ssa.Call)
-				if ok && cl.Call.StaticCallee() == sumOv && is(cl.Call.Args[0], offset) && is(cl.Call.Args[1], count) {
-					return true, false
-				}
-				return false, false
-			}},
-			{"offset+count <= BlockSize", func(cd Cond) (bool, bool) {
-				if cd.X == nil || cd.Y == nil || !isSum(cd.X) {
-					return false, false
-				}
-				k, isk := constInt(cd.Y)
-				if !isk || k != 4096 {
-					return false, false
-				}
-				if cd.Op == token.GTR {
-					return true, false
-				}
-				if cd.Op == token.LEQ {
-					return true, true
-				}
-				return false, false
-			}},
-			{"offset <= Size", func(cd Cond) (bool, bool) {
-				if cd.X == nil || cd.Y == nil || !is(cd.X, offset) {
-					return false, false
-				}
-				_, fl, _, _ := loadedField(cd.Y)
-				if fl != "Size" {
-					return false, false
-				}
-				if cd.Op == token.GTR {
-					return true, false
-				}
-				if cd.Op == token.LEQ {
-					return true, true
-				}
-				return false, false
 			}},
 		}
 		for _, ck := range checks {
-			R.Check(guardedBy(w, cp.Block(), ck.m), id, "simple.Write|"+ck.name, P.Pos(cp.Pos()), "the copy into the data block is dominated by "+ck.name, "guard dominates", "without this bound a request writes outside the file's block, creates a hole, or indexes out of range")
+			R.Check(guardedByX(w, cp.Block(), ck.m, Subst{}, 0), id, "simple.Write|"+ck.name, P.Pos(cp.Pos()), "the copy into the data block is dominated by "+ck.name, "guard dominates", "without this bound a request writes outside the file's block, creates a hole, or indexes out of range")
 		}
 	}
 	cr := findCopy(rd, false)
@@ -376,45 +414,48 @@ func ruleS17_2(c *Ctx, id string) {
 		R.Fail(id, "simple.Read|copy loop", P.Pos(rd.Pos()), "Read copies from the journal buffer", "no load from buf.Data found")
 	} else {
 		offset := ssa.Value(rd.Params[2])
-		g1 := guardedBy(rd, cr.Block(), func(cd Cond) (bool, bool) {
-			if cd.X == nil || cd.Y == nil || stripConv(cd.X) != offset {
-				return false, false
-			}
-			_, fl, _, _ := loadedField(cd.Y)
-			if fl != "Size" {
-				return false, false
-			}
-			if cd.Op == token.GEQ {
-				return true, false
-			}
-			if cd.Op == token.LSS {
-				return true, true
-			}
-			return false, false
-		})
-		R.Check(g1, id, "simple.Read|offset < Size", P.Pos(cr.Pos()), "the copy is dominated by offset < ip.Size", "guard dominates", "reads beyond the end index out of the block")
-		// loop bound is a phi of (bytesToRead, Size-offset) selected by count > Size-offset
-		clamp := false
-		for _, b := range rd.Blocks {
-			for _, in := range b.Instrs {
-				phi, ok := in.(*ssa.Phi)
-				if !ok {
-					continue
+		g1 := guardedByX(rd, cr.Block(), func(sub Subst) func(Cond) (bool, bool) {
+			return func(cd Cond) (bool, bool) {
+				if cd.X == nil || cd.Y == nil || sub.resolve(cd.X) != offset {
+					return false, false
 				}
-				hasParam, hasDiff := false, false
-				for _, e := range phi.Edges {
-					if stripConv(e) == ssa.Value(rd.Params[3]) {
-						hasParam = true
+				_, fl, _, _ := loadedFieldS(cd.Y, sub)
+				if fl != "Size" {
+					return false, false
+				}
+				if cd.Op == token.GEQ {
+					return true, false
+				}
+				if cd.Op == token.LSS {
+					return true, true
+				}
+				return false, false
+			}
+		}, Subst{}, 0)
+		R.Check(g1, id, "simple.Read|offset < Size", P.Pos(cr.Pos()), "the copy is dominated by offset < ip.Size", "guard dominates", "reads beyond the end index out of the block")
+		// loop bound is a phi of (bytesToRead, Size-offset) selected by count > Size-offset (in Read or in a helper)
+		clamp := false
+		for _, sc := range scopesOf(rd) {
+			for _, b := range sc.Fn.Blocks {
+				for _, in := range b.Instrs {
+					phi, ok := in.(*ssa.Phi)
+					if !ok {
+						continue
 					}
-					if bo, ok := stripConv(e).(*ssa.BinOp); ok && bo.Op == token.SUB && stripConv(bo.Y) == offset {
-						if _, fl, _, _ := loadedField(bo.X); fl == "Size" {
-							hasDiff = true
+					hasParam, hasDiff := false, false
+					for _, e := range phi.Edges {
+						if sc.S.resolve(e) == ssa.Value(rd.Params[3]) {
+							hasParam = true
+						}
+						if bo, ok := stripConv(e).(*ssa.BinOp); ok && bo.Op == token.SUB && sc.S.resolve(bo.Y) == offset {
+							if _, fl, _, _ := loadedFieldS(bo.X, sc.S); fl == "Size" {
+								hasDiff = true
+							}
 						}
 					}
-				}
-				if hasParam && hasDiff {
-					// the param edge must come from the false side of  count > Size-offset
-					clamp = true
+					if hasParam && hasDiff {
+						clamp = true
+					}
 				}
 			}
 		}
@@ -476,29 +517,108 @@ func ruleS17_3(c *Ctx, id string) {
 		}
 		R.Check(ok, id, "simple.inodeInit|data block of inode i", P.Pos(f.Pos()), "ip.Data = LOGSIZE + 1 + i: every inode has its own block after the inode table", "constant", "two files share a data block or overlap the inode table")
 	}
-	if f := c.fn(id, "simple.validInum"); f != nil {
-		var eqs []int64
-		geN := false
-		for _, br := range branches(f) {
-			if br.Cond.X == nil || br.Cond.Y == nil {
-				continue
-			}
-			if k, isk := constIntDeep(br.Cond.Y); isk && br.Cond.Op == token.EQL {
-				eqs = append(eqs, k)
-			}
-			if cl, ok := stripConv(br.Cond.Y).(*ssa.Call); ok && cl.Call.StaticCallee() != nil && cl.Call.StaticCallee().Name() == "nInode" && br.Cond.Op == token.GEQ {
-				geN = true
-			}
+	if f := c.fn(id, "simple.validInum"); f != nil && len(f.Params) == 1 {
+		// "valid" is answered only along inum != 0, inum != ROOTINUM and inum < nInode(), whatever the spelling
+		// (three ifs, one && expression, a switch)
+		inum := ssa.Value(f.Params[0])
+		isN := func(v ssa.Value) bool {
+			cl, ok := stripConv(v).(*ssa.Call)
+			return ok && cl.Call.StaticCallee() != nil && cl.Call.StaticCallee().Name() == "nInode"
 		}
-		has := func(k int64) bool {
-			for _, x := range eqs {
-				if x == k {
-					return true
+		// classify a comparison: which of the three requirements does its true side establish (0,1,2), or its false side
+		classify := func(op token.Token, x, y ssa.Value) (int, bool, bool) {
+			if stripConv(y) == inum && stripConv(x) != inum {
+				op, x, y = flipOp(op), y, x
+			}
+			if stripConv(x) != inum {
+				return -1, false, false
+			}
+			if k, isk := constIntDeep(y); isk && (k == 0 || k == rootinum) {
+				which := 0
+				if k == rootinum {
+					which = 1
+				}
+				switch op {
+				case token.NEQ:
+					return which, true, true
+				case token.EQL:
+					return which, false, true
 				}
 			}
-			return false
+			if isN(y) {
+				switch op {
+				case token.LSS:
+					return 2, true, true
+				case token.GEQ:
+					return 2, false, true
+				}
+			}
+			return -1, false, false
 		}
-		R.Check(has(0) && has(rootinum) && geN, id, "simple.validInum", P.Pos(f.Pos()), "rejects 0, ROOTINUM and every number >= nInode()", "three tests present", "a reserved or out-of-range inode number is accepted")
+		cuts := make([]func(from, to *ssa.BasicBlock) bool, 3)
+		for k := 0; k < 3; k++ {
+			k := k
+			cuts[k] = condEdge(f, func(cd Cond) (bool, bool) {
+				if cd.X == nil || cd.Y == nil {
+					return false, false
+				}
+				w, pol, ok := classify(cd.Op, cd.X, cd.Y)
+				if !ok || w != k {
+					return false, false
+				}
+				return true, pol
+			})
+		}
+		okAll, n := true, 0
+		var need func(v ssa.Value, at *ssa.BasicBlock, via *ssa.BasicBlock, d int)
+		need = func(v ssa.Value, at *ssa.BasicBlock, via *ssa.BasicBlock, d int) {
+			if d > 6 {
+				okAll = false
+				return
+			}
+			established := func(k int) bool {
+				if everyPathTakes(f, at, cuts[k]) {
+					return true
+				}
+				return via != nil && cuts[k](at, via)
+			}
+			if bv, isb := constBool(v); isb {
+				if !bv {
+					return
+				}
+				n++
+				for k := 0; k < 3; k++ {
+					if !established(k) {
+						okAll = false
+					}
+				}
+				return
+			}
+			if bo, ok := v.(*ssa.BinOp); ok {
+				if w, pol, ok2 := classify(bo.Op, bo.X, bo.Y); ok2 && pol {
+					n++
+					for k := 0; k < 3; k++ {
+						if k != w && !established(k) {
+							okAll = false
+						}
+					}
+					return
+				}
+			}
+			if phi, ok := v.(*ssa.Phi); ok {
+				for i, e := range phi.Edges {
+					need(e, phi.Block().Preds[i], phi.Block(), d+1)
+				}
+				return
+			}
+			okAll = false
+		}
+		for _, b := range f.Blocks {
+			if r, isR := b.Instrs[len(b.Instrs)-1].(*ssa.Return); isR && len(r.Results) == 1 {
+				need(r.Results[0], b, nil, 0)
+			}
+		}
+		R.Check(okAll && n > 0, id, "simple.validInum", P.Pos(f.Pos()), "answers true only when inum != 0, inum != ROOTINUM and inum < nInode() all hold", "every true answer lies behind the three accepting edges", "a reserved or out-of-range inode number is accepted")
 	}
 	if f := c.fn(id, "simple.(*Nfs).NFSPROC3_FSINFO"); f != nil {
 		vals := map[string]int64{}
